@@ -248,7 +248,12 @@ def conditionals_native(vc):
         M = r.normal(size=(d, d))
         A = M @ M.T / d + 0.5 * np.eye(d)
 
+    offset = vc.choice("log_posterior_offset", [0.0, 0.0, -60.0, 350.0, -2000.0, 900.0, -1e5])     # un-normalised posteriors
+
     def post(th):
+        return offset + post0(th)
+
+    def post0(th):
         z = (np.asarray(th) - mu) / sc
         if kind == "skew":
             return float(-0.5 * np.sum(z * z) + np.sum(np.log1p(np.tanh(z) * 0.8 + 0.0)) if True else 0.0)
